@@ -116,6 +116,7 @@ type vC17Codec struct {
 	fail  map[string]bool // values whose Seal fails (injected)
 	sites []string        // Seal call sites since the last reset
 	seals int
+	failed map[string]bool // values whose Seal was refused (the injected failure was delivered)
 	lines []int // lines of the Seal call sites in messageProcessingLoop, in source order
 }
 
@@ -151,6 +152,12 @@ func (c *vC17Codec) Seal(v []byte) ([]byte, error) {
 	c.sites = append(c.sites, site)
 	c.seals++
 	failing := c.fail[string(v)]
+	if failing {
+		if c.failed == nil {
+			c.failed = map[string]bool{}
+		}
+		c.failed[string(v)] = true
+	}
 	c.mu.Unlock()
 	if failing {
 		return nil, fmt.Errorf("injected seal failure")
@@ -434,17 +441,14 @@ func (r *vC17Run) disconnect() {
 }
 
 func vC17AckKind(a *client.Ack) string {
-	switch a.AckError {
-	case client.Ack_OK:
+	if a.AckError == client.Ack_OK {
 		return "ack"
-	case client.Ack_ENCRYPTION:
-		return "nack"
 	}
-	return "nack:" + a.AckError.String()
+	return "nack"
 }
 
 // publish executes one Publish step; returns acks and the Seal sites used
-func (r *vC17Run) publish(s string, vals []vC17Val, fails []int, how string) ([]string, []string) {
+func (r *vC17Run) publish(s string, vals []vC17Val, fails []int, how string) ([]string, []string, []string) {
 	p := r.part(s)
 	stream := r.streams[s]
 	data := make([][]byte, len(vals))
@@ -464,19 +468,21 @@ func (r *vC17Run) publish(s string, vals []vC17Val, fails []int, how string) ([]
 		vC17Fail("seal failures need the wrapper")
 	}
 	acks := make([]string, len(vals))
+	codes := make([]string, len(vals))
 	if how == "api" {
 		ctx, cancel := context.WithTimeout(context.Background(), vC17Deadline)
 		resp, err := r.srv.api.Publish(ctx, &client.PublishRequest{Stream: stream, Value: data[0], AckPolicy: client.AckPolicy_LEADER})
+		timedOut := ctx.Err() != nil
 		cancel()
 		switch {
 		case err == nil && resp.Ack != nil:
 			acks[0] = "ack"
-		case err != nil && strings.Contains(err.Error(), "encryption failed"):
-			acks[0] = "nack"
-		case err != nil && ctx.Err() != nil:
+		case err != nil && timedOut:
 			vC17Fail("publish timed out: %v", err)
+		case err != nil: // the publisher is told that the message was refused
+			acks[0], codes[0] = "nack", err.Error()
 		default:
-			acks[0] = "err:" + fmt.Sprint(err)
+			acks[0] = "none"
 		}
 	} else {
 		msgs := make([][]byte, len(vals))
@@ -535,17 +541,56 @@ func (r *vC17Run) publish(s string, vals []vC17Val, fails []int, how string) ([]
 			want[strconv.Itoa(v.ID)] = i
 		}
 		got := 0
+		take := func(m *nats.Msg) {
+			a, err := proto.UnmarshalAck(m.Data)
+			if err != nil {
+				vC17Fail("bad ack: %v", err)
+			}
+			if i, ok := want[a.CorrelationId]; ok && acks[i] == "" {
+				acks[i], codes[i] = vC17AckKind(a), a.AckError.String()
+				got++
+			}
+		}
+		start := time.Now()
 		timeout := time.After(vC17Deadline)
 		for got < len(vals) {
 			select {
 			case m := <-r.ackCh:
-				a, err := proto.UnmarshalAck(m.Data)
-				if err != nil {
-					vC17Fail("bad ack: %v", err)
+				take(m)
+			case <-time.After(250 * time.Millisecond):
+				// A message whose Seal was refused (seen by the wrapper) and that is still unanswered
+				// after every other message of the step was answered and a generous grace: both NATS
+				// connections are flushed, then the missing answer is recorded as such ("none").
+				if r.wrapper == nil || time.Since(start) < 3*time.Second {
+					continue
 				}
-				if i, ok := want[a.CorrelationId]; ok && acks[i] == "" {
-					acks[i] = vC17AckKind(a)
-					got++
+				onlyRefused := true
+				r.wrapper.mu.Lock()
+				for i := range vals {
+					if acks[i] == "" && !r.wrapper.failed[string(data[i])] {
+						onlyRefused = false
+					}
+				}
+				r.wrapper.mu.Unlock()
+				if !onlyRefused {
+					continue
+				}
+				r.srv.ncAcks.Flush()
+				r.nc.Flush()
+				time.Sleep(50 * time.Millisecond)
+				for more := true; more; {
+					select {
+					case m := <-r.ackCh:
+						take(m)
+					default:
+						more = false
+					}
+				}
+				for i := range vals {
+					if acks[i] == "" {
+						acks[i] = "none"
+						got++
+					}
 				}
 			case <-timeout:
 				vC17Fail("acks of %v: %v", vals, acks)
@@ -558,15 +603,19 @@ func (r *vC17Run) publish(s string, vals []vC17Val, fails []int, how string) ([]
 		sites = append(sites, r.wrapper.sites...)
 		r.wrapper.mu.Unlock()
 	}
-	return acks, sites
+	return acks, sites, codes
 }
 
-func (r *vC17Run) subscribe(s string, from int64) ([]int, string, string) {
+func (r *vC17Run) subscribe(s string, from int64, rev bool) ([]int, string, string) {
 	ctx, cancel := context.WithTimeout(context.Background(), vC17Deadline)
 	defer cancel()
 	got := []int{}
-	sub, err := r.srv.api.SubscribeInternal(ctx, &client.SubscribeRequest{Stream: r.streams[s],
-		StartPosition: client.StartPosition_OFFSET, StartOffset: from, StopPosition: client.StopPosition_STOP_LATEST})
+	req := &client.SubscribeRequest{Stream: r.streams[s], StartPosition: client.StartPosition_OFFSET, StartOffset: from,
+		StopPosition: client.StopPosition_STOP_LATEST}
+	if rev { // from `from` down to the oldest message
+		req.StopPosition, req.Reverse = client.StopPosition_STOP_ON_CANCEL, true
+	}
+	sub, err := r.srv.api.SubscribeInternal(ctx, req)
 	if err != nil {
 		return got, "err", "subscribe: " + err.Error()
 	}
@@ -612,6 +661,12 @@ func (r *vC17Run) tamper(j int, reg string) string {
 	}
 	if ln <= 0 || st+ln > len(raw) { // an empty value has no ciphertext byte: its tag instead
 		st, ln = len(raw)-16, 16
+	}
+	if st < 0 { // not a sealed value at all (shorter than the framing): any byte of it
+		st, ln = 0, len(raw)
+	}
+	if ln == 0 {
+		return "nothing to alter"
 	}
 	rng := rand.New(rand.NewSource(r.seed + int64(r.bid)*31 + int64(j)))
 	pos := st + rng.Intn(ln)
@@ -727,6 +782,9 @@ func TestVerifC17Server(t *testing.T) {
 			vals:    map[int][]byte{}, pub: map[string][]int{}, lastLog: map[string][]vC17Entry{"enc": {}, "plain": {}}, raw: map[string][][]byte{}}
 		for s, name := range r.streams {
 			req := &client.CreateStreamRequest{Name: name, Subject: name, Encryption: &client.NullableBool{Value: s == "enc"}}
+			if s == "enc" && cfg.Streams.Encryption {
+				req.Encryption = nil // encrypted because the server configuration says so
+			}
 			if _, err := srv.api.CreateStream(context.Background(), req); err != nil {
 				vC17Fail("create stream: %v", err)
 			}
@@ -757,10 +815,11 @@ func TestVerifC17Server(t *testing.T) {
 					}
 				}
 				args["fails"] = fails
-				acks, sites := r.publish(vStr(step, "s"), vals, fails, vStrDef(step, "how", "b2b"))
-				obs["acks"], obs["sites"] = acks, sites
+				acks, sites, codes := r.publish(vStr(step, "s"), vals, fails, vStrDef(step, "how", "b2b"))
+				obs["acks"], obs["sites"], obs["codes"] = acks, sites, codes
 			case "Subscribe":
-				got, end, msg := r.subscribe(vStr(step, "s"), vInt(step, "from"))
+				args["rev"] = vBool(step, "rev")
+				got, end, msg := r.subscribe(vStr(step, "s"), vInt(step, "from"), vBool(step, "rev"))
 				obs["got"], obs["end"], obs["msg"] = got, end, msg
 			case "Pause":
 				name := r.streams[vStr(step, "s")]
